@@ -976,6 +976,22 @@ def has_undecodable_addr(spec):
     return any(c_[0] == "addr" and c_[1] not in VALID_ADDRS for _, c_ in spec)
 
 
+def basen_specs():
+    """Bytes("base32" | "base64" | "base16", ...) literals of every length 0..12 bytes (every padding tail), with and without padding
+    characters / 0x prefix, each used once and twice, alone and next to other repeated constants"""
+    import base64
+    out = []
+    for n_ in range(13):
+        raw = bytes((97 + j) % 256 for j in range(n_))
+        b32 = base64.b32encode(raw).decode()
+        forms = [["b32", b32], ["b32", b32.rstrip("=")], ["b64", base64.b64encode(raw).decode()], ["b16", raw.hex()], ["b16", "0x" + raw.hex()]]
+        for f in forms:
+            for uses in (1, 2):
+                out.append([["pop", f]] * uses)
+                out.append([["pop", ["int", 1000]], ["pop", ["int", 1000]]] + [["pop", f]] * uses + [["cmp", ["bytes", "ff"]], ["pop", ["bytes", "ff"]]])
+    return out
+
+
 def gen_const_spec(rng, version=6):
     """5-10 distinct integers and 3-8 distinct byte strings, each used 1-6 times, small (< 128) and large values mixed, with
     template integers / byte strings / addresses among them, in shuffled order (frequency ranks and first-seen order vary)"""
@@ -987,6 +1003,12 @@ def gen_const_spec(rng, version=6):
     consts += [["bytes", h] for h in bs]
     for j in range(rng.choice([0, 1, 1, 2])):
         consts.append(["tbytes", "TMPL_B%d" % j])
+    import base64
+    for j in range(rng.choice([0, 1, 2])):
+        raw = bytes(rng.randrange(256) for _ in range(rng.randrange(0, 13)))
+        enc = rng.choice(["b32", "b32nopad", "b64"])
+        consts.append(["b32", base64.b32encode(raw).decode()] if enc == "b32" else
+                      ["b32", base64.b32encode(raw).decode().rstrip("=")] if enc == "b32nopad" else ["b64", base64.b64encode(raw).decode()])
     if rng.random() < 0.5:
         consts.append(["taddr", "TMPL_ADDR"])
     if rng.random() < 0.45:
@@ -1018,6 +1040,8 @@ def build_const_spec(pt, spec):
             return pt.Tmpl.Int(v_), "u"
         if k_ == "bytes":
             return Bytes("base16", v_), "b"
+        if k_ in ("b16", "b32", "b64"):
+            return Bytes({"b16": "base16", "b32": "base32", "b64": "base64"}[k_], v_), "b"
         if k_ == "tbytes":
             return pt.Tmpl.Bytes(v_), "b"
         if k_ == "taddr":
@@ -1066,11 +1090,18 @@ def stream_consts(run, thorough):
     """real compiler only: assembleConstants / Compilation(assemble_constants=True) must not crash and must not change the outcome class"""
     pt, ck = run.pt, run.ck
     stats, bad = {}, {}
-    for i in range(3000 if thorough else 320):
+    directed = basen_specs()
+    if not thorough:
+        directed = directed[0::2] + directed[1::4]      # quick: every bare form, every other mixed form
+    nrand = 3000 if thorough else 320
+    for i in range(len(directed) + nrand):
         rng = rng_of("consts", i)
-        version = rng.choice([2, 3, 3, 4, 5, 6, 7, 8, 9, 10])
-        spec = gen_const_spec(rng, version)
-        app = rng.random() < 0.6
+        if i < len(directed):
+            spec, version, app = directed[i], (3, 6, 10, 4, 9)[i % 5], (i % 3 != 0)
+        else:
+            version = rng.choice([2, 3, 3, 4, 5, 6, 7, 8, 9, 10])
+            spec = gen_const_spec(rng, version)
+            app = rng.random() < 0.6
         base = compile_const_spec(pt, spec, version, app, False, "compileTeal")
         for api in (("compileTeal", "Compilation") if i % 2 == 0 else ("compileTeal",)):
             x = compile_const_spec(pt, spec, version, app, True, api)
@@ -1094,7 +1125,7 @@ def stream_consts(run, thorough):
             if kind == "crash":
                 return c2 == cls
             b2 = compile_const_spec(pt, sp, version, app, False, "compileTeal")
-            return b2["outcome"] == base["outcome"] and c2 == cls
+            return b2["outcome"] == base["outcome"] and b2.get("exc") == base.get("exc") and c2 == cls
         small, improved, budget = list(spec), True, 400
         while improved and budget > 0:
             improved = False
@@ -1109,6 +1140,109 @@ def stream_consts(run, thorough):
         ck.violation(what + " (%d programs of this class; shrunk from %d to %d constant uses)" % (len(lst), len(spec), len(small)),
                      {"kind": kind, "const_spec": small, "version": version, "mode": "app" if app else "sig", "api": api,
                       "result": {k_: v_ for k_, v_ in x.items() if k_ != "value"}, "python": "harness/c20.py build_const_spec(pt, const_spec)"})
+    return stats
+
+
+# ---------------------------------------------------------------------------------------------
+# subroutines whose positional parameter names collide with names PyTeal uses internally
+# ---------------------------------------------------------------------------------------------
+ODD_PARAM_NAMES = ["output", "self", "args", "kwargs", "options", "ret", "_", "cls", "expr", "subroutine", "fn", "name", "return_type", "abi"]
+
+
+def param_case_specs(thorough):
+    out = []
+    kinds_sets = [["expr"], ["expr", "expr"], ["plain", "expr"], ["expr", "ref"], ["abi", "expr"], ["expr", "plain", "expr"]]
+    for nm in ODD_PARAM_NAMES:
+        for ks in kinds_sets:
+            for pos in ("first", "last"):
+                for deco, ret in (("Subroutine", "u"), ("Subroutine", "n"), ("ABIReturnSubroutine", "u")):
+                    if deco == "ABIReturnSubroutine" and nm == "output":
+                        continue        # there the keyword-only result parameter really is `output`
+                    names = ["p%d" % j for j in range(len(ks))]
+                    names[0 if pos == "first" else -1] = nm
+                    out.append({"decorator": deco, "ret": ret, "params": [[n_, k_] for n_, k_ in zip(names, ks)]})
+    if not thorough:
+        out = [c_ for j, c_ in enumerate(out) if c_["params"][0][0] == "output" or c_["params"][-1][0] == "output" or j % 3 == 0]
+    return out
+
+
+def build_param_case(pt, spec, neutral=False):
+    """-> main expression; neutral=True renames every parameter to q0, q1, ... (the reference: names are not part of the program)"""
+    params = [[("q%d" % j) if neutral else n_, k_] for j, (n_, k_) in enumerate(spec["params"])]
+    ann = {"expr": ": Expr", "plain": "", "ref": ": ScratchVar", "abi": ": abi.Uint64"}
+    read = {"expr": "%s", "plain": "%s", "ref": "%s.load()", "abi": "%s.get()"}
+    total = " + ".join([read[k_] % n_ for n_, k_ in params] + ["Int(1)"])
+    sig = ", ".join(n_ + ann[k_] for n_, k_ in params)
+    if spec["decorator"] == "ABIReturnSubroutine":
+        res = "res_" if any(n_ == "output" for n_, _ in params) else "output"
+        src = "def callee(%s, *, %s: abi.Uint64):\n    return %s.set(%s)\n" % (sig, res, res, total)
+    elif spec["ret"] == "u":
+        src = "def callee(%s):\n    return %s\n" % (sig, total)
+    else:
+        src = "def callee(%s):\n    return Pop(%s)\n" % (sig, total)
+    ns = {"Expr": pt.Expr, "ScratchVar": pt.ScratchVar, "abi": pt.abi, "Int": pt.Int, "Pop": pt.Pop}
+    exec(src, ns)
+    if spec["decorator"] == "ABIReturnSubroutine":
+        f = pt.ABIReturnSubroutine(ns["callee"])
+    else:
+        f = pt.Subroutine(pt.TealType.uint64 if spec["ret"] == "u" else pt.TealType.none)(ns["callee"])
+    pre, args = [], []
+    for j, (n_, k_) in enumerate(params):
+        if k_ in ("expr", "plain"):
+            args.append(pt.Int(j + 2))
+        elif k_ == "ref":
+            v = pt.ScratchVar(pt.TealType.uint64)
+            pre.append(v.store(pt.Int(j + 2)))
+            args.append(v)
+        else:
+            a = pt.abi.Uint64()
+            pre.append(a.set(pt.Int(j + 2)))
+            args.append(a)
+    if spec["decorator"] == "ABIReturnSubroutine":
+        r = pt.abi.Uint64()
+        return pt.Seq(*pre, f(*args).store_into(r), pt.Return(r.get()))
+    if spec["ret"] == "u":
+        return pt.Seq(*pre, pt.Return(f(*args)))
+    return pt.Seq(*pre, f(*args), pt.Approve())
+
+
+def compile_param_case(pt, spec, version, fp, neutral):
+    return real_call(pt, lambda: pt.compileTeal(build_param_case(pt, spec, neutral), pt.Mode.Application, version=version,
+                                                optimize=(None if fp is None else pt.OptimizeOptions(frame_pointers=fp))))
+
+
+def stream_param_names(run, thorough):
+    """a parameter's NAME is not part of the program: the outcome (class and TEAL text) must equal that of the same subroutine
+    with neutral parameter names"""
+    pt, ck = run.pt, run.ck
+    stats, bad = {}, {}
+    for j, spec in enumerate(param_case_specs(thorough)):
+        for version, fp in (((5, None), (6, None), (7, None), (8, None), (8, False), (9, None), (10, None), (10, False)) if thorough
+                            else (((5, 8, 10)[j % 3], None), ((6, 9)[j % 2], None), ((8, 10)[j % 2], False))):
+            x = compile_param_case(pt, spec, version, fp, False)
+            ref = compile_param_case(pt, spec, version, fp, True)
+            cls = lambda y: "ok" if y["outcome"] == "ok" else y.get("exc", y["outcome"])
+            ck.count(("param-names", json.dumps(spec, sort_keys=True), version, fp), nontrivial=(x["outcome"] == "ok"))
+            stats[cls(x)] = stats.get(cls(x), 0) + 1
+            if x["outcome"] in ("crash", "timeout"):
+                bad.setdefault(("crash", cls(x)), []).append((spec, version, fp, x, ref))
+            elif cls(x) != cls(ref):
+                bad.setdefault(("acceptance" if ref["outcome"] == "ok" else "history", cls(x), cls(ref)), []).append((spec, version, fp, x, ref))
+            elif x["outcome"] == "ok" and x["value"] != ref["value"]:
+                stats["text differs from neutral names"] = stats.get("text differs from neutral names", 0) + 1
+                bad.setdefault(("text",), []).append((spec, version, fp, x, ref))
+    for key, lst in list(bad.items())[:3]:
+        spec, version, fp, x, ref = min(lst, key=lambda t: len(t[0]["params"]))
+        if key[0] == "crash":
+            what = "%s: a non-PyTeal exception for a subroutine with a parameter named %r" % (key[1], [n_ for n_, _ in spec["params"]])
+        elif key[0] == "text":
+            what = "the TEAL of a subroutine changes with the NAME of its parameters %r" % ([n_ for n_, _ in spec["params"]],)
+        else:
+            what = "a valid call of a %s with parameters %r ends in %s (%s); with neutral parameter names the same program ends in %s" % (
+                spec["decorator"], [n_ for n_, _ in spec["params"]], key[1], x.get("msg", "")[:80], key[2])
+        ck.violation(what + " (%d cases of this class)" % len(lst),
+                     {"kind": "acceptance" if key[0] in ("acceptance", "text") else "crash", "param_case": spec, "version": version, "frame_pointers": fp,
+                      "result": {k_: v_ for k_, v_ in x.items() if k_ != "value"}, "python": "harness/c20.py build_param_case(pt, param_case)"})
     return stats
 
 
@@ -1205,6 +1339,14 @@ def replay(path):
             bad = now is None or fnow is None or step_class(now) != step_class(fnow)
         else:
             bad = now is None or now["outcome"] in ("crash", "timeout")
+        print("still failing" if bad else "no longer failing")
+        return 1 if bad else 0
+    if "param_case" in data:
+        x = compile_param_case(pt, data["param_case"], data["version"], data.get("frame_pointers"), False)
+        r_ = compile_param_case(pt, data["param_case"], data["version"], data.get("frame_pointers"), True)
+        print("with the given names:", json.dumps({k: v for k, v in x.items() if k != "value"}, default=repr)[:500])
+        print("with neutral names  :", json.dumps({k: v for k, v in r_.items() if k != "value"}, default=repr)[:300])
+        bad = x["outcome"] in ("crash", "timeout") or x["outcome"] != r_["outcome"] or x.get("exc") != r_.get("exc") or x.get("value") != r_.get("value")
         print("still failing" if bad else "no longer failing")
         return 1 if bad else 0
     if "const_spec" in data:
@@ -1319,6 +1461,10 @@ def main(argv):
     t0 = time.time()
     ck.coverage["constant_dense_template_programs"] = stream_consts(run, thorough)
     ck.coverage["consts_s"] = round(time.time() - t0, 1)
+
+    t0 = time.time()
+    ck.coverage["odd_parameter_names"] = stream_param_names(run, thorough)
+    ck.coverage["param_names_s"] = round(time.time() - t0, 1)
 
     # ---- (2f) complexity probes (deterministic call counts, not timings)
     t0 = time.time()
